@@ -108,8 +108,8 @@ def layout_units(cfg, scal, quals, Ls=(1, 2, 3, 4), shapes=None, quat=True, per_
                                 kind='mset', descr='m[c][r] = s / value_ptr(m)[c*R+r] = s; column-major byte image of ' + d, **m)
                 if mk and Q in ('packed_highp', 'defaultp') and not (c.get('default_aligned') and Q != 'defaultp'):
                     MD = 'glm::mat<%d,%d,%s,glm::defaultp>' % (C, R, g)
-                    unit().addm(tg + '_make', [(ct, C * R)], [(ct, C * R), (ct, C * R)],
-                                '%s m = glm::make_mat%dx%d(a); stm(o, m); std::memcpy(o2, glm::value_ptr(m), %d);' % (MD, C, R, C * R * s),
+                    unit().addm(tg + '_make', [(ct, C * R)], [(ct, C * R)] * (1 if al else 2),       # aligned columns: the value_ptr image has padding, only the elements are compared
+                                '%s m = glm::make_mat%dx%d(a); stm(o, m);%s' % (MD, C, R, '' if al else ' std::memcpy(o2, glm::value_ptr(m), %d);' % (C * R * s)),
                                 kind='mmake', descr='make_mat%dx%d(%s const*) -> value_ptr image' % (C, R, ct), **m)
             if quat and ct in ('float', 'double'):
                 QT = 'glm::qua<%s,%s>' % (g, q); tg = 'q_%s_%s' % (TAG[ct], qtag(Q)); d = 'qua<%s,%s>' % (ct, Q)
@@ -193,7 +193,7 @@ def check(S, u, fname):
         run_check(S, u, fname, spec, lambda i: inrange(i[1][0], L), bounds='0<=i<L symbolic; byte image of the first L*sizeof(T) bytes', **kw)
     elif k in ('vmake', 'mmake'):
         n = m['L'] if k == 'vmake' else m['C'] * m['R']
-        run_check(S, u, fname, lambda i, o: [('components%d' % j, bits_of(o[0][j]) == i[0][j]) for j in range(n)] + [('image%d' % j, bits_of(o[1][j]) == i[0][j]) for j in range(n)], None, bounds='all bit patterns', **kw)
+        run_check(S, u, fname, lambda i, o: [('components%d' % j, bits_of(o[0][j]) == i[0][j]) for j in range(n)] + ([('image%d' % j, bits_of(o[1][j]) == i[0][j]) for j in range(n)] if len(o) > 1 else []), None, bounds='all bit patterns', **kw)
     elif k == 'mfacts':
         C, R = m['C'], m['R']; cs = colsize(m)
         def spec(i, o):
